@@ -3,6 +3,7 @@ CONSTANTS
   MaxOps = 2
   Groups = {"list", "listns", "tree", "arr", "mat", "ds"}
   Big = FALSE
+  Focus = ""
   Wide = TRUE
   ShipDsAdd = FALSE
   ShipMatPartial = FALSE
